@@ -1,11 +1,11 @@
 """Scenario generator for C07 (connect/accept pairing, refusal, endpoint views, cross-talk)
-and C13 (NAT): builds on gen/net_gen.py (whose families keep their behaviour byte for byte
-— nothing there is changed) and adds
+and C13 (NAT): builds on gen/net_gen.py and adds
 
   hs       one or two acceptors, 1-5 clients each: SYNs queued before the accept is posted, accepts
            posted before the SYN, more connects than accepts and vice versa, all three accept overloads,
            re-accepting into a reused socket (closed first, or still open), acceptor close / close0 /
-           cancel / re-open in mid-flight, local/remote queried in every connect and accept handler,
+           cancel / destroy / re-open in mid-flight, local/remote queried in every connect and accept handler
+           and again from I/O completion handlers (after payload / ACKs crossed the NAT hops),
            data in both directions on every pair with stream ids unique per socket
   refuse   connects to endpoints nobody listens on: no socket bound; TCP socket bound, not listening;
            acceptor bound, never listening; acceptor closed (close / close0 / destroy) earlier; listen
@@ -14,9 +14,10 @@ and C13 (NAT): builds on gen/net_gen.py (whose families keep their behaviour byt
            local / read / write on the refused socket and (often) a second connect of that socket to
            a live acceptor
   natmix   the above over configurations with NAT on the client side, on both sides, several nodes
-           behind ONE external address, plus UDP datagrams between natted and public nodes
+           behind ONE external address, two NAT hops on one outgoing route, plus UDP datagrams between natted
+           and public nodes (senders bound explicitly, to port 0, or implicitly by send_to)
 
-Every route holds at least one queue (out: probe [nat] queue [dropper]; in: queue probe; net: queue)."""
+Every route holds at least one queue (out: probe [nat [nat]] queue [nat] [dropper]; in: queue probe; net: queue)."""
 import random
 from net_gen import Prog, ep, BW, LAT, MTU
 import net_gen
